@@ -31,6 +31,12 @@ def run(tier):
             c.sc, c.profile, c.mode, c.seed = sc, "lifecycle", m, s
             cases.append(c)
 
+    for k in range(16 if tier == "quick" else 400):
+        for g, prof in ((gen.gen_restart_while_leaving, "restart_while_leaving"), (gen.gen_paused_with_batch_at_quit, "paused_with_batch_at_quit")):
+            c = cc.Case()
+            c.sc, c.profile, c.mode, c.seed = g(seed * 1000 + k), prof, ("loop" if k % 2 else "dispatch"), seed * 1000 + k
+            cases.append(c)
+
     def oracle(case):
         return model_lifecycle.check(case, stats)
 
